@@ -380,6 +380,24 @@ theorem absent_final (pol : Policy) (cfg : Cfg) (st : RState) (t : Target) (e0 :
         simp [snapshotObj, hu'])
     exact ⟨this.1, this.2.1⟩
 
+/-! ## the function tied to the real code is the function of the theorems
+
+  The correspondence harness compares the real worker loops with `runWorker`
+  (which also issues SELECT when the entry's DB differs from the connection's);
+  on entries of the connection's DB it is `runPlain` / `runBisync`. -/
+
+theorem worker_is_runPlain (pol : Policy) (cfg : Cfg) (cur : Nat) (es : List Entry) (st : RState) (t : Target)
+    (h : ∀ e ∈ es, e.db = Int.ofNat cur) :
+    (runWorker false pol cfg cur st t es).flatMap (·.1) = (runPlain pol cfg st t es).reqs ∧
+    workerTarget t (runWorker false pol cfg cur st t es) = (runPlain pol cfg st t es).tgt :=
+  runWorker_plain pol cfg cur es st t h
+
+theorem worker_is_runBisync (pol : Policy) (cfg : Cfg) (cur : Nat) (es : List Entry) (st : RState) (t : Target)
+    (h : ∀ e ∈ es, e.db = Int.ofNat cur) :
+    (runWorker true pol cfg cur st t es).flatMap (·.1) = (runBisync pol cfg st t es).reqs ∧
+    workerTarget t (runWorker true pol cfg cur st t es) = (runBisync pol cfg st t es).tgt :=
+  runWorker_bisync pol cfg cur es st t h
+
 /-! ## non-vacuity: a split hash `h` (three chunks, expiry) meeting an old value with a TTL -/
 
 def exCmd (f v : UInt8) : Cmd := { name := [104, 115, 101, 116], args := [[104], [102, f], [118, v]] }
